@@ -276,3 +276,11 @@ MUTANTS = [
 REWRITES = [
     Rewrite("lost-check-truthy", MGR, "        if self._traffic is not None:\n            self._traffic.lost_connection()", "        if self._traffic is not None:\n            self._traffic.lost_connection()\n        log.msg(\"lost\")", desc="extra logging"),
 ]
+
+# engine A5
+MUTANTS.append(Mutant("pong-credited-conditionally", MGR, "        def got_pong(_):\n            # ignoring \"ping_id\"\n            self._traffic.traffic_seen()",
+                      "        def got_pong(rtt):\n            if rtt <= 2 * self._ping_interval:\n                self._traffic.traffic_seen()", "C16.R4",
+                      "a pong may be ignored (unit mix-up between producer and consumer of the round-trip time): a responsive peer is dropped"))
+MUTANTS.append(Mutant("signal-needs-timer", MGR, "        if self._connection:\n            self._connection.disconnect()\n\n    def _send_ping_reset_timer",
+                      "        if self._connection and self._timer is not None:\n            self._connection.disconnect()\n\n    def _send_ping_reset_timer", "C16.R4",
+                      "when the reconnect signal fires the timer has just expired (_timer is None): the silent connection is never dropped"))
